@@ -465,6 +465,7 @@ public:
     const auto b = snapshot_and_lock_two<normal_mode>(hv);
     const table_position pos = cuckoo_find(key, hv.partial, b.i1, b.i2);
     if (pos.status == ok) {
+      LIBCUCKOO_VERIF_EVENT(EV_FUNCTOR, &buckets_, pos.index);
       fn(buckets_[pos.index].mapped(pos.slot));
       return true;
     } else {
@@ -488,6 +489,7 @@ public:
     const auto b = snapshot_and_lock_two<normal_mode>(hv);
     const table_position pos = cuckoo_find(key, hv.partial, b.i1, b.i2);
     if (pos.status == ok) {
+      LIBCUCKOO_VERIF_EVENT(EV_FUNCTOR, &buckets_, pos.index);
       fn(buckets_[pos.index].mapped(pos.slot));
       return true;
     } else {
@@ -512,6 +514,7 @@ public:
     const auto b = snapshot_and_lock_two<normal_mode>(hv);
     const table_position pos = cuckoo_find(key, hv.partial, b.i1, b.i2);
     if (pos.status == ok) {
+      LIBCUCKOO_VERIF_EVENT(EV_FUNCTOR, &buckets_, pos.index);
       if (fn(buckets_[pos.index].mapped(pos.slot))) {
         del_from_bucket(pos.index, pos.slot);
       }
@@ -564,6 +567,7 @@ public:
     }
     using CanInvokeWithUpsertContextT =
         typename internal::CanInvokeWithUpsertContext<F, mapped_type>::type;
+    LIBCUCKOO_VERIF_EVENT(EV_FUNCTOR, &buckets_, pos.index);
     if (internal::InvokeUpraseFn(fn, buckets_[pos.index].mapped(pos.slot),
                                  upsert_context,
                                  CanInvokeWithUpsertContextT{})) {
@@ -850,7 +854,11 @@ private:
     bool is_migrated() const noexcept { return is_migrated_; }
 
   private:
+#ifdef LIBCUCKOO_VERIF
+    verif::atomic_flag_ev lock_;
+#else
     std::atomic_flag lock_;
+#endif
     counter_type elem_counter_;
     bool is_migrated_;
   };
@@ -860,7 +868,12 @@ private:
       typename std::allocator_traits<allocator_type>::template rebind_alloc<U>;
 
   using locks_t = std::vector<spinlock, rebind_alloc<spinlock>>;
+#ifdef LIBCUCKOO_VERIF
+  using all_locks_t =
+      verif::list_ev<std::list<locks_t, rebind_alloc<locks_t>>>;
+#else
   using all_locks_t = std::list<locks_t, rebind_alloc<locks_t>>;
+#endif
 
   // Classes for managing locked buckets. By storing and moving around sets of
   // locked buckets in these classes, we can ensure that they are unlocked
@@ -968,6 +981,7 @@ private:
   template <bool IS_LAZY> void rehash_lock(size_t l) const noexcept {
     locks_t &locks = get_current_locks();
     spinlock &lock = locks[l];
+    LIBCUCKOO_VERIF_EVENT(EV_LOCK_META, this, l);
     if (lock.is_migrated())
       return;
 
@@ -1111,6 +1125,7 @@ private:
     // all_locks_ should never decrease in size, so if it is non-empty now, it
     // will remain non-empty
     assert(!all_locks_.empty());
+    LIBCUCKOO_VERIF_EVENT(EV_LOCKALL_BEGIN, this, 0);
     const auto first_locked = std::prev(all_locks_.end());
     auto current_locks = first_locked;
     while (current_locks != all_locks_.end()) {
@@ -1122,6 +1137,7 @@ private:
     }
     // Once we have taken all the locks of the "current" container, nobody
     // else can do locking operations on the table.
+    LIBCUCKOO_VERIF_EVENT(EV_LOCKALL_END, this, 0);
     return AllLocksManager(this, AllUnlocker{first_locked});
   }
 
@@ -1162,6 +1178,8 @@ private:
   template <typename K>
   table_position cuckoo_find(const K &key, const partial_t partial,
                              const size_type i1, const size_type i2) const {
+    LIBCUCKOO_VERIF_EVENT(EV_BUCKET_ACCESS, &buckets_, i1);
+    LIBCUCKOO_VERIF_EVENT(EV_BUCKET_ACCESS, &buckets_, i2);
     int slot = try_read_from_bucket(buckets_[i1], partial, key);
     if (slot != -1) {
       return table_position{i1, static_cast<size_type>(slot), ok};
@@ -1252,6 +1270,8 @@ private:
   template <typename TABLE_MODE, typename K>
   table_position cuckoo_insert(const hash_value hv, TwoBuckets &b, K &key) {
     int res1, res2;
+    LIBCUCKOO_VERIF_EVENT(EV_BUCKET_ACCESS, &buckets_, b.i1);
+    LIBCUCKOO_VERIF_EVENT(EV_BUCKET_ACCESS, &buckets_, b.i2);
     bucket &b1 = buckets_[b.i1];
     if (!try_find_insert_bucket(b1, res1, hv.partial, key)) {
       return table_position{b.i1, static_cast<size_type>(res1),
@@ -1310,6 +1330,8 @@ private:
   template <typename K, typename... Args>
   void add_to_bucket(const size_type bucket_ind, const size_type slot,
                      const partial_t partial, K &&key, Args &&...val) {
+    LIBCUCKOO_VERIF_EVENT(EV_BUCKET_ACCESS, &buckets_, bucket_ind);
+    LIBCUCKOO_VERIF_EVENT(EV_LOCK_META, this, lock_ind(bucket_ind));
     buckets_.setKV(bucket_ind, slot, partial, std::forward<K>(key),
                    std::forward<Args>(val)...);
     ++get_current_locks()[lock_ind(bucket_ind)].elem_counter();
@@ -1459,6 +1481,7 @@ private:
     {
       const auto lock_manager =
           lock_one(resize_counter, first.bucket, TABLE_MODE());
+      LIBCUCKOO_VERIF_EVENT(EV_BUCKET_ACCESS, &buckets_, first.bucket);
       const bucket &b = buckets_[first.bucket];
       if (!b.occupied(first.slot)) {
         // We can terminate here
@@ -1477,6 +1500,7 @@ private:
       curr.bucket = alt_index(hp, prev.hv.partial, prev.bucket);
       const auto lock_manager =
           lock_one(resize_counter, curr.bucket, TABLE_MODE());
+      LIBCUCKOO_VERIF_EVENT(EV_BUCKET_ACCESS, &buckets_, curr.bucket);
       const bucket &b = buckets_[curr.bucket];
       if (!b.occupied(curr.slot)) {
         // We can terminate here
@@ -1509,6 +1533,7 @@ private:
       const size_type bucket_i = cuckoo_path[0].bucket;
       assert(bucket_i == b.i1 || bucket_i == b.i2);
       b = lock_two(resize_counter, b.i1, b.i2, TABLE_MODE());
+      LIBCUCKOO_VERIF_EVENT(EV_BUCKET_ACCESS, &buckets_, bucket_i);
       if (!buckets_[bucket_i].occupied(cuckoo_path[0].slot)) {
         return true;
       } else {
@@ -1536,6 +1561,8 @@ private:
         twob = lock_two(resize_counter, from.bucket, to.bucket, TABLE_MODE());
       }
 
+      LIBCUCKOO_VERIF_EVENT(EV_BUCKET_ACCESS, &buckets_, from.bucket);
+      LIBCUCKOO_VERIF_EVENT(EV_BUCKET_ACCESS, &buckets_, to.bucket);
       bucket &fb = buckets_[from.bucket];
       bucket &tb = buckets_[to.bucket];
 
@@ -1663,6 +1690,7 @@ private:
     while (!q.empty()) {
       b_slot x = q.dequeue();
       auto lock_manager = lock_one(resize_counter, x.bucket, TABLE_MODE());
+      LIBCUCKOO_VERIF_EVENT(EV_BUCKET_ACCESS, &buckets_, x.bucket);
       bucket &b = buckets_[x.bucket];
       // Picks a (sort-of) random slot to start from
       size_type starting_slot = x.pathcode % slot_per_bucket();
@@ -1740,6 +1768,7 @@ private:
     // Move the current buckets into old_buckets_, and create a new empty
     // buckets container, which will become the new current one. The
     // old_buckets_ data will be destroyed when move-assigning to buckets_.
+    LIBCUCKOO_VERIF_EVENT(EV_BUCKETS_REPLACE, &buckets_, new_hp);
     old_buckets_.swap(buckets_);
     buckets_ = buckets_t(new_hp, get_allocator());
 
@@ -1784,6 +1813,10 @@ private:
                    size_type old_bucket_ind) const noexcept {
     const size_t old_hp = old_buckets.hashpower();
     const size_t new_hp = new_buckets.hashpower();
+    LIBCUCKOO_VERIF_EVENT(EV_BUCKET_ACCESS, &old_buckets, old_bucket_ind);
+    LIBCUCKOO_VERIF_EVENT(EV_BUCKET_ACCESS, &new_buckets, old_bucket_ind);
+    LIBCUCKOO_VERIF_EVENT(EV_BUCKET_ACCESS, &new_buckets,
+                          old_bucket_ind + hashsize(old_hp));
 
     // By doubling the table size, the index_hash and alt_index of each key got
     // one bit added to the top, at position old_hp, which means anything we
@@ -1928,6 +1961,7 @@ private:
     // have all the locks, so nobody else should be reading from the buckets
     // array. Then the old buckets will be deleted when new_map is deleted.
     maybe_resize_locks(new_map.bucket_count());
+    LIBCUCKOO_VERIF_EVENT(EV_BUCKETS_REPLACE, &buckets_, new_map.hashpower());
     buckets_.swap(new_map.buckets_);
 
     // Bump the resize_counter_ to indicate that we've resized the table.
@@ -2007,6 +2041,8 @@ private:
   // Removes an item from a bucket, decrementing the associated counter as
   // well.
   void del_from_bucket(const size_type bucket_ind, const size_type slot) {
+    LIBCUCKOO_VERIF_EVENT(EV_BUCKET_ACCESS, &buckets_, bucket_ind);
+    LIBCUCKOO_VERIF_EVENT(EV_LOCK_META, this, lock_ind(bucket_ind));
     buckets_.eraseKV(bucket_ind, slot);
     --get_current_locks()[lock_ind(bucket_ind)].elem_counter();
   }
@@ -2059,7 +2095,12 @@ private:
   // This class is a friend for unit testing
   friend class UnitTestInternalAccess;
 
+#if defined(LIBCUCKOO_VERIF) && defined(LIBCUCKOO_VERIF_MAX_NUM_LOCKS)
+  // Small stripe limit for verification harnesses (must be a power of two)
+  static constexpr size_type kMaxNumLocks = LIBCUCKOO_VERIF_MAX_NUM_LOCKS;
+#else
   static constexpr size_type kMaxNumLocks = 1UL << 16;
+#endif
 
   locks_t &get_current_locks() const { return all_locks_.back(); }
 
@@ -2131,7 +2172,14 @@ private:
   //
   // It should only be written when all locks are taken on the table, which
   // proves that all other threads must be blocked.
+#ifdef LIBCUCKOO_VERIF
+  mutable verif::atomic_ev<CopyableAtomic<size_type>, size_type,
+                           verif::EV_RC_LOAD, verif::EV_RC_BUMP,
+                           verif::EV_RC_BUMP>
+      resize_counter_;
+#else
   mutable CopyableAtomic<size_type> resize_counter_;
+#endif
 
   // A linked list of all lock containers. We never discard lock containers,
   // since there is currently no mechanism for detecting when all threads are
@@ -2151,7 +2199,13 @@ private:
   // lazy-rehashing a lock, so not in the common case.
   //
   // Marked mutable so that we can modify this during rehashing.
+#ifdef LIBCUCKOO_VERIF
+  mutable verif::atomic_ev<CopyableAtomic<size_t>, size_t, verif::EV_LAZY_LOAD,
+                           verif::EV_LAZY_STORE, verif::EV_LAZY_DEC>
+      num_remaining_lazy_rehash_locks_;
+#else
   mutable CopyableAtomic<size_t> num_remaining_lazy_rehash_locks_;
+#endif
 
   // Stores the minimum load factor allowed for automatic expansions. Whenever
   // an automatic expansion is triggered (during an insertion where cuckoo
@@ -2754,6 +2808,7 @@ public:
     }
 
     friend std::istream &operator>>(std::istream &is, locked_table &lt) {
+      LIBCUCKOO_VERIF_EVENT(EV_BUCKETS_REPLACE, &lt.buckets(), 0);
       is >> lt.buckets();
 
       // Re-size the locks, and set the size to the stored size
